@@ -308,6 +308,42 @@ func (g *gen) genEvent(ws uint64, via string) (*eventSpec, []string) {
 		tags = append(tags, "sync")
 		// explicit storage IDs instead of some raw ones
 		slot := 0
+		order := append(append([]uint64{}, argRaw...), cudRaw...) // the order in which the two passes meet the rows
+		if n := len(order); n >= 2 && r.Chance(3, 10) {
+			// tight: explicit IDs at / just above the generator's current value, on rows met after raw rows, before
+			// them, or both - the IDs the generator is about to hand out for the event's own raw rows
+			var at []int
+			switch r.Intn(4) {
+			case 0:
+				at = []int{n - 1}
+			case 1:
+				at = []int{0}
+			case 2:
+				at = []int{0, n - 1}
+			default:
+				at = []int{r.Intn(n)}
+				if j := r.Intn(n); j != at[0] && n > 2 {
+					at = append(at, j)
+				}
+			}
+			if len(at) == n {
+				at = at[:1] // keep at least one raw row
+			}
+			next := v.maxID + 1
+			taken := map[uint64]bool{}
+			for _, i := range at {
+				id := next + uint64(r.Intn(n+2))
+				for taken[id] || v.used[id] {
+					id++
+				}
+				taken[id] = true
+				v.used[id] = true
+				replaceVal(ev, order[i], id)
+			}
+			tags = append(tags, "explicit-tight")
+			order = nil
+			cudRaw, argRaw = nil, nil // no further replacements in this event
+		}
 		for _, raw := range cudRaw {
 			if r.Chance(1, 2) {
 				above := r.Chance(6, 10)
@@ -486,6 +522,19 @@ func observe(v *wsView, ev *eventSpec) []string {
 	}
 	var arg []rowSpec
 	flatten(ev.Arg, 0, &arg)
+	explicit := map[uint64]bool{}
+	for _, rows := range [][]rowSpec{arg, ev.Creates} {
+		for _, x := range rows {
+			if x.ID > maxRaw {
+				explicit[x.ID] = true
+			}
+		}
+	}
+	for _, p := range o.NewIDs {
+		if explicit[p.Storage] {
+			tags = append(tags, "F43:generated-id-equals-explicit-id-of-the-same-event")
+		}
+	}
 	argRaw := map[uint64]bool{}
 	for i, a := range arg {
 		if a.ID >= 1 && a.ID <= maxRaw {
